@@ -141,6 +141,14 @@ class MessageReader:
         except etree.XMLSyntaxError as ex:
             self._logger.warning('Error reading response ex=%r xml=%s', ex, xml_text.decode('utf-8'))
             raise
+        if doc_root.getroottree().docinfo.doctype:
+            # SOAP 1.2 part 1, chapter 5: "A SOAP message MUST NOT contain a document type declaration".
+            # Without DTD no entity can be declared (libxml2 expands internal entities in attribute values
+            # even if resolve_entities is False).
+            fault = Fault()
+            fault.Code.Value = faultcodeEnum.SENDER
+            fault.add_reason_text('document type declaration is not allowed in a SOAP message')
+            raise ValidationError(reason='document type declaration not allowed', soap_fault=fault)
         if validate:
             self._validate_node(doc_root)
 
